@@ -3,7 +3,29 @@
    module of the executable, all.ml (generated) references them so none is dropped. *)
 let () = All.touch ()
 
+let coq_mode () =
+  (* main.exe --coq <prop> <cases> <out.v> <n> *)
+  let prop = Sys.argv.(2) in
+  let inp = open_in Sys.argv.(3) and out = open_out Sys.argv.(4) and n = int_of_string Sys.argv.(5) in
+  (match Hashtbl.find_opt Registry.coq_table prop with
+   | None -> ()
+   | Some (header, f) ->
+     output_string out header;
+     let k = ref 0 in
+     (try
+       while !k < n do
+         let line = input_line inp in
+         match String.split_on_char '\t' line with
+         | _ :: p :: rest when p = prop ->
+           let ops = match rest with [] -> [] | s :: _ -> Stdlib.List.filter (fun x -> x <> "") (String.split_on_char ' ' s) in
+           if Stdlib.List.length ops < 40 && String.length line < 4000 then begin f !k ops out; incr k end
+         | _ -> ()
+       done
+     with End_of_file -> ()));
+  close_out out
+
 let () =
+  if Array.length Sys.argv > 1 && Sys.argv.(1) = "--coq" then (coq_mode (); exit 0);
   let inp = open_in Sys.argv.(1) and out = open_out Sys.argv.(2) in
   (try
     while true do
